@@ -285,6 +285,7 @@ def pathlib_views(item):
                 continue
             base = dict(tree=tname, pattern=txt, flags=flags, fl=LC.flagnames(flags))
             bad = []
+            via_link = {}
             tok = globrun.begin_alarm(3 * globrun.CASE_SECONDS)
             try:
                 root = PL.Path(t.root)
@@ -324,6 +325,8 @@ def pathlib_views(item):
                             m.add(str(PL.Path(c)))
                     for x in sorted(rg - m)[:3]:
                         bad.append(('rglob-yields-a-path-that-match(REALPATH)-rejects', x))
+                        parts = x.split('/')
+                        via_link[x] = any(os.path.islink('/'.join(parts[:i])) for i in range(1, len(parts)))          # (the first-decomposition finding needs a link on the way)
                     for x in sorted(m - rg)[:3]:
                         bad.append(('match(REALPATH)-accepts-a-path-that-rglob-does-not-yield', x))
                     # globmatch / full_match == glob.globmatch on the string (trailing separator for directories)
@@ -341,7 +344,7 @@ def pathlib_views(item):
                             bad.append(('PureWindowsPath.globmatch-differs-from-glob.globmatch(FORCEWIN)', c))
                 finally:
                     os.chdir(cwd0)
-                out.append(dict(base, bad=bad[:8], n=len(rg)))
+                out.append(dict(base, bad=bad[:8], n=len(rg), via_link=via_link))
             except CaseTimeout:
                 os.chdir(cwd0)
                 out.append(dict(base, bad=[('timeout', '')], n=0))
